@@ -155,11 +155,13 @@ def load_findings(prop_id: str) -> Tuple[List[dict], List[dict]]:
 
 
 def finding_matches(entry: dict, bucket: str) -> bool:
-    """An open entry exempts exactly the buckets it lists (exact names, or names given
-    with a trailing '*' for a family that shares one call site)."""
+    """An open entry exempts exactly the buckets it lists: exact names, or glob patterns
+    ('*' wildcards) for a family that shares one call site / root cause."""
+    import fnmatch
+
     for pat in entry.get("buckets", []):
-        if pat.endswith("*"):
-            if bucket.startswith(pat[:-1]):
+        if "*" in pat:
+            if fnmatch.fnmatchcase(bucket, pat.replace("[", "[[]")):
                 return True
         elif bucket == pat:
             return True
